@@ -24,8 +24,8 @@ HS == { H!Height(rn, rh) : rn \in RevNums, rh \in RevHeights }
 
 \* timeouts and observation points
 TRev == IF Quick THEN {N(0), N(1)} ELSE {N(0), N(1), Max64}
-THgt == IF Quick THEN {N(0), N(1), Max64} ELSE {N(0), N(1), Sym(63, 0), Max64, Rnd64(Seed, 7)}
-TStamps == IF Quick THEN {N(0), N(1), Sym(63, 0), Max64} ELSE {N(0), N(1), Sym(63, -1), Sym(63, 0), Max64, Rnd64(Seed, 8)}
+THgt == IF Quick THEN {N(0), Max64} ELSE {N(0), N(1), Sym(63, 0), Max64, Rnd64(Seed, 7)}
+TStamps == IF Quick THEN {N(0), N(1), Max64} ELSE {N(0), N(1), Sym(63, -1), Sym(63, 0), Max64, Rnd64(Seed, 8)}
 THS == { H!Height(rn, rh) : rn \in TRev, rh \in THgt }
 Points == { [h |-> h, ts |-> ts] : h \in THS, ts \in TStamps }
 Timeouts == { H!Timeout(h, ts) : h \in THS, ts \in TStamps }
